@@ -138,9 +138,11 @@ fn forward_case(l0: usize, l1: usize) {
     let parent = state.peek().parent_ds.parent_port_identity;
     let other = any_port_identity();
     kani::assume(other != parent);
-    let vbuf: [u8; 64] = kani::any();
+    let mut vbuf = [0u8; 64];
+    vbuf[0] = kani::any();
     let from_parent = [kani::any::<bool>(), kani::any::<bool>()];
-    let tyv: [u16; 2] = [kani::any(), kani::any()];
+    // TLV types: ORGANIZATION_EXTENSION_PROPAGATE or PATH_TRACE (the two classes the send side distinguishes)
+    let tyv: [u16; 2] = [if kani::any() { 0x4000 } else { 0x0008 }, if kani::any() { 0x4000 } else { 0x0008 }];
     let mut prov = TwoTlvs {
         buf: &vbuf,
         ty: [TlvType::from_primitive(tyv[0]), TlvType::from_primitive(tyv[1])],
@@ -194,11 +196,12 @@ fn forward_case(l0: usize, l1: usize) {
 // @props C15 C03
 // @tier quick
 // @variant dl128_lists2
+// @features none
 // @stubbing yes
 // @timeout 1800
 // @mem 14
 // @functions Port::send_announce, TlvSetBuilder::add, ForwardedTLV::size, Tlv::wire_size
-// @bounds master port, provider queue of two TLVs with value lengths (6, 8), symbolic TLV types (all 2^16), each from the parent or from another sender, path trace on/off (empty received path)
+// @bounds master port, provider queue of two TLVs with value lengths (6, 8), TLV types PATH_TRACE or ORGANIZATION_EXTENSION_PROPAGATE (symbolic choice), each from the parent or from another sender, path trace on/off (empty received path)
 // @assume provider honours the documented contract of next_if_smaller (returns the next TLV iff its wire size <= max_size); MAX_DATA_LEN scaled to 128 (room 64); recording serialize stub
 #[kani::proof]
 #[kani::unwind(20)]
